@@ -165,6 +165,9 @@ func forcedSucc(pred, s *ssa.BasicBlock) int {
 				continue
 			}
 			n := knownNilness(phi.Edges[i])
+			if n == 0 && testedNonNilAt(phi.Edges[i], pred) {
+				n = 1 // flows in from a block that is only reached when the value was found non-nil
+			}
 			if n == 0 {
 				return -1
 			}
@@ -262,7 +265,7 @@ func testedNonNilAt(v ssa.Value, b *ssa.BasicBlock) bool {
 				succ = 1
 			}
 			nb := ifi.Block().Succs[succ]
-			if len(nb.Preds) == 1 && nb.Dominates(b) {
+			if len(nb.Preds) == 1 && (nb == b || nb.Dominates(b)) {
 				return true
 			}
 		}
